@@ -119,6 +119,7 @@ Section WithNetwork.
           match p_batch p with
           | [] => (mkSt (p_slots p) (p_kv p) (p_seqs p) next (clock st) (nreq st) (p_log p), RStepped [] [])
           | _ =>
+              if kv_full cfg (kv_evict cfg (p_kv p) (p_batch p)) (p_batch p) then (st, RCacheFull) else
               let kv' := kv_forward (kv_evict cfg (p_kv p) (p_batch p)) (p_batch p) in
               match post_all F cfg kv' (p_batch p) (p_slots p) (p_seqs p) with
               | None => (st, RPanic)
